@@ -22,6 +22,8 @@ def step (line : String) : String :=
   | "config" :: rest => runConfig (parseKV rest)
   | "rview" :: rest => runRview (parseKV rest)
   | "fview" :: rest => runFview (parseKV rest)
+  | "rview2" :: rest => runRview2 (parseKV rest)
+  | "rview3" :: rest => runRview3 (parseKV rest)
   | _ => "bad-op"
 
 partial def loop (h : IO.FS.Stream) (out : IO.FS.Stream) : IO Unit := do
